@@ -41,6 +41,9 @@ var c09Msgs = []c09Msg{
 	{Priv: true, App: 0, Code: 999, Short: "XP", OtherApp: 7, OtherCode: 280, OtherName: "WD"},  // a command the default dictionary lacks
 	{Priv: true, App: 7, Code: 999, Short: "XP", OtherApp: 0, OtherCode: 280, OtherName: "WD"},  // ... reached through the fallback to the private base
 	{Priv: true, App: 7, Code: 280, Short: "WD", OtherApp: 0, OtherCode: 999, OtherName: "DW"}, // a code the private base names differently
+	// the relay application id with the largest 24-bit command code: as an answer this index is the
+	// closest neighbour of the catch-all's internal key {0xffffffff, 0xffffffff, false}
+	{Priv: true, App: 0xffffffff, Code: 16777215, Short: "XE", OtherApp: 0, OtherCode: 999, OtherName: "XP"},
 	// commands that exist only in an application the AVP parent table leads to
 	{Undefined: true, App: 16777251, Code: 272, Short: "CC", OtherApp: 4, OtherCode: 316, OtherName: "UL"},
 	{Undefined: true, App: 16777238, Code: 265, Short: "AA", OtherApp: 1, OtherCode: 272, OtherName: "CC"},
@@ -57,6 +60,7 @@ func c09Dict(m c09Msg) *dict.Parser {
 		p, _ := dict.NewParser()
 		x := `<?xml version="1.0"?><diameter><application id="0" name="Priv">
 <command code="999" short="XP" name="X-Private"><request><rule avp="P-Note" required="false"/></request><answer><rule avp="P-Note" required="false"/></answer></command>
+<command code="16777215" short="XE" name="X-Experimental"><request><rule avp="P-Note" required="false"/></request><answer><rule avp="P-Note" required="false"/></answer></command>
 <command code="280" short="WD" name="Watch-Dog"><request><rule avp="P-Note" required="false"/></request><answer><rule avp="P-Note" required="false"/></answer></command>
 <avp name="P-Note" code="9901" must="M"><data type="UTF8String"/></avp></application></diameter>`
 		if err := p.Load(strings.NewReader(x)); err != nil {
@@ -422,7 +426,7 @@ func runC09(ctx *ev.Ctx) {
 	}
 	ctx.Set("histories", hn)
 	ctx.Set("distinct_selected_handlers", len(outcomes)+1)
-	ctx.Rule = "histories: every sequence of <=5 (thorough 6) operations over {register one of the eight keys with a fresh handler, dispatch, dispatch during which the selected handler panics and the caller recovers as the serve loop does (at most once)} ending in a dispatch, replayed on one ServeMux with every dispatch compared with a reference model (map key -> latest handler; index, then name, then catch-all); AND the complete decision table: for 7 message keys (base CE, application CC, RA under Gx which redefines it, RA under S6a which resolves through the base dictionary, and three messages carrying a private dictionary whose base application defines a command the default dictionary lacks and names code 280 differently; plus three (application, code) pairs whose command exists only in an application that the AVP parent table - not command lookup - leads to: only the catch-all may see those) x request/answer (the other command flag bits P, E, T and the reserved bits rotate with the case: only R selects): all 2^8 subsets of the registrations {index K, index with other application, other code, other R bit, name of K, name with the other suffix, name of another command, ALL}, and every single re-registration of a present key with a second handler; the handler that fires and the number of error reports are compared with the reference decision (index, then name, then catch-all, else exactly one report)."
+	ctx.Rule = "histories: every sequence of <=5 (thorough 6) operations over {register one of the eight keys with a fresh handler, dispatch, dispatch during which the selected handler panics and the caller recovers as the serve loop does (at most once)} ending in a dispatch, replayed on one ServeMux with every dispatch compared with a reference model (map key -> latest handler; index, then name, then catch-all); AND the complete decision table: for 8 message keys (application 0xffffffff with command code 2^24-1, base CE, application CC, RA under Gx which redefines it, RA under S6a which resolves through the base dictionary, and three messages carrying a private dictionary whose base application defines a command the default dictionary lacks and names code 280 differently; plus three (application, code) pairs whose command exists only in an application that the AVP parent table - not command lookup - leads to: only the catch-all may see those) x request/answer (the other command flag bits P, E, T and the reserved bits rotate with the case: only R selects): all 2^8 subsets of the registrations {index K, index with other application, other code, other R bit, name of K, name with the other suffix, name of another command, ALL}, and every single re-registration of a present key with a second handler; the handler that fires and the number of error reports are compared with the reference decision (index, then name, then catch-all, else exactly one report)."
 	ctx.Assume = []string{"exact-index and name registrations are judged for commands the dictionary defines (incoming messages have passed ReadMessage); for undefined commands only the catch-all / error-report rows are judged"}
 }
 
